@@ -29,8 +29,36 @@ def build():
     return _built['err']
 
 
+class _P:
+    def __init__(self, rc, out, err):
+        self.returncode, self.stdout, self.stderr = rc, out, err
+
+
+def run_group(cmd, timeout):
+    """run the contract runner in its own process group; on timeout the whole group is killed (the runner evaluates some contracts in a
+    child process, which must not survive as an orphan spinning on a mutated tree)"""
+    import signal
+    pr = subprocess.Popen(cmd, stdout=subprocess.PIPE, stderr=subprocess.PIPE, text=True, start_new_session=True)
+    try:
+        out, err = pr.communicate(timeout=timeout)
+        return _P(pr.returncode, out, err)
+    except subprocess.TimeoutExpired:
+        try:
+            os.killpg(pr.pid, signal.SIGKILL)
+        except ProcessLookupError:
+            pass
+        pr.communicate()
+        return None
+
+
+_TIMED_OUT = set()
+
+
 def run_contract(name, prop, tier, seed, only=None):
     info = {'unit': name, 'engine': 'bounded'}
+    if name in _TIMED_OUT:
+        # already ran into its time limit in this process (as a leg): do not spend the limit again as a counterexample search
+        return [Res('bounded::' + name, 'bounded', 'undecided', [prop], 'native enumeration (verif-bounded)', 0, 'timeout (earlier in this run)', bounded={'space': 'n/a', 'count': 0, 'exhaustive': False})], info
     if only and not any(s in name for s in only):
         return [], info
     err = build()
@@ -40,10 +68,9 @@ def run_contract(name, prop, tier, seed, only=None):
         return [Res('bounded::' + name, 'bounded', 'infra', [prop], backend, 0, 'runner does not build: ' + err,
                     bounded={'space': 'n/a', 'count': 0, 'exhaustive': False})], info
     t0 = time.time()
-    try:
-        p = subprocess.run([BIN, name, tier, str(seed)], stdout=subprocess.PIPE, stderr=subprocess.PIPE, text=True,
-                           timeout=3600 if tier == 'thorough' else 900)
-    except subprocess.TimeoutExpired:
+    p = run_group([BIN, name, tier, str(seed)], 3600 if tier == 'thorough' else 900)
+    if p is None:
+        _TIMED_OUT.add(name)
         return [Res('bounded::' + name, 'bounded', 'undecided', [prop], backend, time.time() - t0, 'timeout',
                     bounded={'space': 'n/a', 'count': 0, 'exhaustive': False})], info
     secs = time.time() - t0
